@@ -133,6 +133,17 @@ pub fn stream_alloc(opt: &HashMap<String, String>) -> i32 {
             let n = if algo == 4 { 20 } else { [50u64, 24, 70][(i / 20) % 3] };
             for _ in 0..(if thorough { 530 } else { 270 }) { calls.push(AllocCall { algo, method, n, family: "uniform" }); }
         }
+        if !cold && i % 20 == 3 {
+            // sizes beyond 2048 steps also in the quick tier (the random sizes stop at `big`): warm
+            // calls after a larger one, through the entry points that are at most quadratic
+            calls.clear();
+            calls.push(AllocCall { algo: 1, method: 0, n: 2600, family: "uniform" });
+            for k in 0..5u64 {
+                let (algo, method) = [(1u8, 0u8), (2, 0), (0, 4), (2, 1), (0, 5), (3, 6), (0, 2)][((i / 20) as usize + k as usize) % 7];
+                let n = [2050u64, 2051, 2049, 2300, 2600][k as usize];
+                calls.push(AllocCall { algo, method, n, family: if k % 2 == 0 { "uniform" } else { "rampdips" } });
+            }
+        }
         let outs = if wide { run_hist::<f64>(&mut rng, &calls, cold) } else { run_hist::<f32>(&mut rng, &calls, cold) };
         let mut exp: Vec<i128> = vec![];
         let mut maxn_seen = 0u64;
